@@ -166,6 +166,25 @@ Theorem C02_spec_roundtrip_dec :
 Proof. exact spec_roundtrip_dec. Qed.
 Print Assumptions C02_spec_roundtrip_dec.
 
+(* C02_fp_write_valid at the level of the writer's bookkeeping model: whatever payloads write_column emits,
+   if the recorded ColumnMetaData are those of its pos/diff bookkeeping, num_values the row count and
+   null_count the number of NULL levels, the validator's chunk check accepts the scanned chunk.
+   (DESIGN's C02_fp_write_valid/_dec over a byte-producing writer model: the page payload blocks are modelled
+   and proved decodable in the coordinator's Impl/WLevels.v (C01); the remaining glue - the real page bytes are
+   the model's - is checked by running valid_file/dec_file on every written file, harness/props/C02.py.) *)
+Theorem C02_fp_write_chunk_valid : forall start encs (ps : list page) (m : cmd) cells nulls rg,
+  ps <> [] ->
+  forallb is_data (tl ps) = true ->
+  (is_data (hd {| p_kind := PData1; p_hdr := 1; p_comp := 0; p_uncomp := 0; p_nvals := 0; p_enc := 0 |}%Z ps) = false -> tl ps <> []) ->
+  forallb sane ps = true ->
+  forallb (fun p => existsb (Z.eqb (p_enc p)) encs) ps = true ->
+  cmeta_of m = wr_bookkeeping start (sumZ (map p_nvals (filter is_data ps))) encs ps ->
+  cm_nvals m = rg_nrows rg ->
+  (cm_null_count m = None \/ cm_null_count m = Some (Z.of_N nulls)) ->
+  valid_chunk rg (CHere {| co_meta := m; co_pages := ps; co_cells := cells; co_nulls := nulls |}) = ROk tt.
+Proof. exact fp_write_chunk_valid. Qed.
+Print Assumptions C02_fp_write_chunk_valid.
+
 (* ---------------- non-vacuity -------------------------------------------------------------------- *)
 Example C02_nonvacuous :
   let d := {| p_kind := PDict; p_hdr := 14; p_comp := 30; p_uncomp := 50; p_nvals := 5; p_enc := 0 |}%Z in
